@@ -454,7 +454,7 @@ func checkIdentityVersionEntry(c *Ctx) {
 		}
 	}
 	rOK := false
-	for _, g := range cmpGuards(rd, nil) {
+	for _, g := range guardsDeep(rd, nil, 0) {
 		gg, o := g.oriented(func(v ssa.Value) bool { return hasField(v, "Name") })
 		if o && gg.Op == token.NEQ {
 			if s, isS := constString(gg.Y); isS && s == name {
